@@ -1,4 +1,4 @@
-CONSTANTS Peers = {1, 2}  Racy = TRUE
+CONSTANTS Peers = {1, 2}  Racy = TRUE  Connect = FALSE
 INIT TInit
 NEXT TNext
 CHECK_DEADLOCK FALSE
